@@ -62,6 +62,8 @@ class ClockOut(BaseException):
 
 
 class ScriptSock:
+    on_recv = None
+
     def __init__(self, script):
         # script: list of ['c', bytes] | ['e'] | ['s']
         self.script = [list(x) for x in script]
@@ -77,6 +79,8 @@ class ScriptSock:
 
     def recv(self, n):
         self.reads += 1
+        if ScriptSock.on_recv is not None:
+            ScriptSock.on_recv()          # a scheduling point for harness/interleave.py (two_receivers)
         if not self.script:
             return b''
         head = self.script[0]
@@ -746,8 +750,68 @@ def run_cases(ctx: Ctx, case_iter, res: Result, oracle=oracle_conn):
     return res
 
 
+def two_receivers(res, rng):
+    """two instances in one process (two devices of a test bed, or an application hosting two) receive at the same time:
+    the second connection is served on a second thread, started at every read of the first (harness/interleave.py) —
+    both messages must be delivered whatever the cuts."""
+    from harness import interleave as il
+    msgs = [(msg, seal(msg[1], rng_nonce(rng))) for msg in valid_plaintexts()]
+    picks = [(msgs[1], [40]), (msgs[3], [1]), (msgs[-1], [60, 300]), (msgs[2], [len(msgs[2][1]) - 3])]
+    for (msg, m), cuts in picks:
+        other_msg, other_m = msgs[-2]
+
+        class Sys:
+            pass
+
+        def build():
+            s = Sys()
+            s.a, s.b = Rig(64, 0), Rig(2048, 0)
+            s.out = {}
+            return s
+        ca = deliver_case('two-receivers', 64, msg, m, [c for c in cuts if 0 < c < len(m)], rng)['conns'][0]
+        cb = deliver_case('two-receivers', 2048, other_msg, other_m, [len(other_m) // 2], rng)['conns'][0]
+        holder = {}
+
+        def opx(s):
+            holder['sched'] = getattr(s, 'sched', None)
+            s.out['a'] = s.a.call(ca)['out']
+
+        def opy(s):
+            s.out['b'] = s.b.call(cb)['out']
+
+        def obs(s):
+            return (s.out.get('a'), s.out.get('b'), s.a.t._queue_incoming.qsize(), s.b.t._queue_incoming.qsize())
+
+        def set_sched_factory(s_obj):
+            def set_sched(sc):
+                me = __import__('threading').current_thread()
+                ScriptSock.on_recv = lambda: sc.point()
+            return set_sched
+
+        def build2():
+            s = build()
+            s.set_sched = set_sched_factory(s)
+            return s
+        try:
+            v, st = il.explore(build2, opx, opy, obs, two_preemptions=False, max_runs=60)
+        finally:
+            ScriptSock.on_recv = None
+        res.add_case({'kind': 'two-receivers', 'len': len(m), 'cuts': cuts}, nontrivial=True)
+        res.count('two_receivers_interleavings', st['runs'])
+        if v is not None:
+            res.violations.append(Violation(
+                'dropped-complete-message',
+                f"two instances receiving at the same time ({len(m)}-byte message cut at {cuts} on one, a {len(other_m)}-byte message in two "
+                f"reads on the other, the second connection served at read #{v['k']} of the first): outcomes {v['got']}; served one after "
+                f"the other: {v['allowed'][0]}", {'kind': 'two-receivers', 'k': v['k']}))
+            return
+
+
 def run(ctx: Ctx) -> Result:
     res = Result()
+    if ctx.replay is not None and ctx.replay['replay'].get('kind') == 'two-receivers':
+        two_receivers(res, ctx.rng)
+        return res
     if ctx.replay is not None:
         return run_cases(ctx, [ctx.replay['replay']], res)
     extra = []
@@ -762,6 +826,7 @@ def run(ctx: Ctx) -> Result:
         else:
             res.notes.append('F9: no ciphertext with the marker at a boundary found within the budget')
     run_cases(ctx, list(cases(ctx)) + extra, res)
+    two_receivers(res, ctx.rng)
     res.exhaustive = True
     return res
 
